@@ -421,8 +421,19 @@ func report(groups []*group, res *lib.Result) {
 				continue
 			}
 			for _, v := range it.vids {
-				res.Hit("finding:" + v[0])
-				res.Violate(v[0], v[1], c)
+				id, what := v[0], v[1]
+				// The recorded (known) DST findings are identified by the behaviour of the code as it is: the
+				// model reproduces it (and the translated Next is proved equal to the model). A wrong answer in
+				// one of those zone classes that is NOT the model's answer is a different violation.
+				for _, cls := range []string{"dst-subhour-", "dst-offhour-", "dst-multihour-"} {
+					if strings.HasPrefix(id, cls) && it.kind == "next" && it.model != "" && it.model != it.impl {
+						id += "-not-the-recorded-behaviour"
+						what += fmt.Sprintf(" [the code as recorded (model) answers %q here, this tree answers %q]", it.model, it.impl)
+						break
+					}
+				}
+				res.Hit("finding:" + id)
+				res.Violate(id, what, c)
 			}
 			switch it.kind {
 			case "next":
